@@ -285,6 +285,48 @@ def run(ctx):
     filt = [prog.bodies[p] for p in prog.children(p_.path) if prog.bodies[p].call_blocks(AQS + '::is_active')]
     ctx.ob('R17.5', 'perform_submits|active filter', bool(filt), 'the queue list is filtered by state().is_active()', p_.loc())
 
+    # ---- R17.10 the limiter is built with the limits in their places
+    ctx.rule('R17.10', 'create_rate_limiter passes MAX_SUBMISSION_FAILS as the submission-failure limit and max_allocation_fails() as the allocation-failure limit (both are u64: swapped, a queue pauses after 3 failed submissions and survives 10 failed allocations); RateLimiter::new stores its parameters in the fields of the same name')
+    crl_ = prog.body(PROC + 'create_rate_limiter')
+    nw = crl_.call_blocks(LIM + '::new')
+    ctx.require(nw, 'R17.10: RateLimiter::new call in create_rate_limiter')
+    t_ = crl_.term[nw[0]]
+    maf = crl_.call_blocks(lambda c: c.endswith('max_allocation_fails'))
+    def from_maf(a_):
+        l_ = op_local(a_)
+        return l_ is not None and any(crl_.term[x]['d'][0] in crl_.derived_from(l_, through_mutation=False) for x in maf)
+    ctx.ob('R17.10', 'create_rate_limiter|argument order', bool(maf) and len(t_['args']) >= 3 and from_maf(t_['args'][2]) and not from_maf(t_['args'][1]),
+           'argument 2 (max allocation fails) comes from max_allocation_fails(), argument 1 (max submission fails) does not', crl_.loc(nw[0]))
+    nb_ = prog.body(LIM + '::new')
+    okn = False
+    for o_, b_, bi_, s_ in construct_sites(prog, LIM):
+        if b_.path != nb_.path:
+            continue
+        names = s_['rv'][1][3]
+        def arg_of(f):
+            l_ = op_local(s_['rv'][2][names.index(f)]) if f in names else None
+            return {x for x in (nb_.derived_from(l_, through_mutation=False) if l_ is not None else ()) if 1 <= x <= nb_.argc}
+        okn = arg_of('max_submission_fails') == {2} and arg_of('max_allocation_fails') == {3}
+    ctx.ob('R17.10', 'RateLimiter::new|parameters stored in the fields of the same name', okn, 'parameter 2 -> max_submission_fails, parameter 3 -> max_allocation_fails', nb_.loc())
+
+    # ---- R17.11 the CLI resource hint of a queue keeps --cpus next to other resources
+    ctx.rule('R17.11', 'client: construct_resources_from_cli adds the --cpus shorthand unless a resource NAMED cpus was given (the guard searches the items by name); guarded by "no --resource at all" the hint loses its cpus, fails validation and the queue is created without any resource hint (demand for tasks its workers can never run)')
+    crc = [p_ for p_ in prog.bodies if p_.endswith('commands::autoalloc::construct_resources_from_cli')]
+    ctx.require(len(crc) == 1, 'R17.11: construct_resources_from_cli not found')
+    cb_ = prog.body(crc[0])
+    RDI = 'tako::internal::common::resources::descriptor::ResourceDescriptorItem'
+    pushes = cb_.call_blocks('alloc::vec::Vec::push')
+    ctx.require(pushes, 'R17.11: push of the cpus item')
+    searched = False
+    for p2 in prog.children(cb_.path):
+        c2 = prog.bodies[p2]
+        if any(f == 'name' for bi in c2.reachable() for st in c2.stmts(bi) if st['k'] == 'a' for pl in __import__('hqrules.core', fromlist=['rv_places']).rv_places(st['rv']) for f, a_, v_ in place_fields(pl)) or \
+           any(any(f == 'name' for f, a_, v_ in place_fields(op_place(a))) for bi, t, c in c2.calls() for a in t['args'] if op_place(a)):
+            searched = True
+    finder = [bi for bi, t, c in cb_.calls() if bi in cb_.reachable() and (callee_decl(t) or c or '').endswith(('Iterator::find', 'Iterator::any', 'Iterator::position', 'Iterator::all'))]
+    ctx.ob('R17.11', 'construct_resources_from_cli|cpus shorthand guarded by a search by name', searched and bool(finder) and all(x not in cb_.reach_from([0], avoid=finder) for x in pushes),
+           'the push of the cpus item is dominated by a find/any/position over the given resources whose closure reads the item name', cb_.loc(pushes[0]))
+
 
 def _some_before(b, first, target):
     return any(target not in b.reach_from([0], avoid=[x]) for x in first) or \
